@@ -441,3 +441,48 @@ func (e *Env) ErrCallbacks() int64 {
 func (e *Env) Quiesce(ctx context.Context) bool {
 	return e.FenceMonitor(ctx) && e.FenceCallbacks(ctx)
 }
+
+// AbandonInVerify performs a blocking report of l from source src whose context is cancelled while the monitor is
+// inside Verify for it (the caller gives up; the monitor finishes the update afterwards). Returns false when Verify was
+// not reached (verification not active, or the value failed to stack), in which case the report simply completed.
+// The operation is recorded in the history as a blocking report whose context ended after submission.
+func (e *Env) AbandonInVerify(client, src int, l *Layer) (abandoned bool, res int) {
+	reached, release := make(chan struct{}), make(chan struct{})
+	var once sync.Once
+	armed := atomic.Bool{}
+	armed.Store(true)
+	setHook := func(f func(*Cfg)) {
+		e.S.mu.Lock()
+		e.S.OnVerify = f
+		e.S.mu.Unlock()
+	}
+	setHook(func(*Cfg) {
+		if armed.CompareAndSwap(true, false) {
+			once.Do(func() { close(reached) })
+			<-release
+		}
+	})
+	defer setHook(nil)
+	cctx, cancel := context.WithCancel(e.S.Ctx)
+	defer cancel()
+	type out struct {
+		res int
+		err error
+	}
+	done := make(chan out, 1)
+	go func() {
+		r, err := e.Report(cctx, client, src, l, true)
+		done <- out{r, err}
+	}()
+	select {
+	case <-reached:
+		cancel()
+		o := <-done
+		close(release)
+		return true, o.res
+	case o := <-done:
+		armed.Store(false)
+		close(release)
+		return false, o.res
+	}
+}
